@@ -91,6 +91,7 @@ NTR:
 
 from dawgie.pl.jobinfo import State
 
+import calendar
 import datetime
 import dawgie
 import dawgie.context
@@ -145,10 +146,17 @@ def _delay(when: dawgie.EVENT) -> datetime.timedelta:
             pass
 
         if when.moment.dom is not None:
-            nm = now.month + 1
+            # this month's day until it is over (same as dow: today's moment
+            # even when its time has passed), otherwise the next month; a
+            # month that is too short for the day has no occurrence
+            year, month = now.year, now.month
+            if when.moment.dom < now.day:
+                year, month = year + month // 12, month % 12 + 1
+            if calendar.monthrange(year, month)[1] < when.moment.dom:
+                year, month = year + month // 12, month % 12 + 1
             then = datetime.datetime(
-                year=now.year + (1 if nm == 13 else 0),
-                month=1 if nm == 13 else nm,
+                year=year,
+                month=month,
                 day=when.moment.dom,
                 hour=when.moment.time.hour,
                 minute=when.moment.time.minute,
